@@ -232,8 +232,8 @@ BODIES_EXCH = [
     "valid", "corrupt-head", "corrupt-meta", "truncated", "empty", "schema-only", "garbage",
     "no-state-token", "tampered-state-token", "garbage-state-token", "empty-state-token", "tampered-call-token", "no-call-token",
 ]  # fmt: skip
-CTYPES_Q = ["right", "wrong", "missing"]
-CTYPES_T = CTYPES_Q + ["param"]
+CTYPES_Q = ["right", "wrong", "missing", "suffix", "longer", "prefix"]
+CTYPES_T = CTYPES_Q + ["param", "subtype", "case", "ws"]
 ENC_Q = ["none", "zstd", "gzip", "identity", "br", "corrupt-zstd"]
 ENC_T = ENC_Q + ["deflate", "corrupt-gzip", "truncated-zstd", "truncated-gzip", "upper-gzip"]
 AUTHS = ["off", "rejecting"]
@@ -398,8 +398,17 @@ ENC_FAULT = {
     "truncated-gzip": ("corrupt-coding", 400, True),
     "upper-gzip": ("coding-case", 415, False),
 }
-CT_FAULT = {"wrong": ("content-type", 415, True), "missing": ("content-type", 415, True), "param": ("content-type-param", 415, False)}
-CT_VALUE = {"right": CT, "wrong": "application/json", "missing": None, "param": CT + "; charset=utf-8"}
+CT_FAULT = {
+    "wrong": ("content-type", 415, True), "missing": ("content-type", 415, True), "param": ("content-type-param", 415, False),
+    # near misses: other media types that merely share characters with the Arrow stream type
+    "suffix": ("content-type", 415, True), "longer": ("content-type", 415, True), "prefix": ("content-type", 415, True), "subtype": ("content-type", 415, True),
+    # media types compare case-insensitively and optional white space may surround them: either reading is admissible
+    "case": ("content-type-case", 415, False), "ws": ("content-type-ws", 415, False),
+}
+CT_VALUE = {
+    "right": CT, "wrong": "application/json", "missing": None, "param": CT + "; charset=utf-8", "suffix": CT + "+json", "longer": CT + "ing",
+    "prefix": CT.rsplit(".", 1)[0], "subtype": CT + "/x", "case": CT.upper(), "ws": " " + CT + " ",
+}
 
 
 # ------------------------------------------------------------------------------ one request
